@@ -78,7 +78,7 @@ PROPS['C14'] = {'units': ['C'], 'spec_tags': [], 'bounded': ['typeddiff'],
 PROPS['C13']['units'] = ['P', 'Pc', 'C']
 PROPS['C13']['bounded'] = list(PROPS['C13']['bounded']) + ['listpair']
 PROPS['C13']['trusted'] = PROPS['C13']['trusted'] + ['N11: impl_command_list_tuple! expanded by tools/macroexp.py from the macro_rules! definition in the same file',
-    '<Vec<C> as CommandList> (iterator adaptors map/zip/extend with trait-method paths) is NOT under contract: bounded stand-in listpair',
+    '<Vec<C> as CommandList>::command_list (map with a trait-method path, Extend) is NOT under contract: bounded stand-in listpair; its responses half (zip loop) IS proved',
     "vstd's specification of vec::IntoIter::next (prophetic remaining sequence)"]
 
 TRUSTED_FILT = "oracle: spec port of MPD's SongFilter::ParseExpression / ExpectWord / ExpectQuoted (contracts/spec/filt.rs) and its Rust twin (replay/src/mpdfilter.rs), transcribed from the MPD sources from memory"
@@ -106,7 +106,7 @@ PROPS['C20']['level_text'] = ("Proved for all tags / subsystems / candidate stri
 PROPS['C11']['level_text'] = ("Proved for all filter trees and all value strings: every constructor builds the stated tree (AND flattened), the bytes written are the MPD expression text with the library's value escaping, and - by a lemma over a spec port of MPD's tokenizer and filter grammar - the server reads back the same tree "
     "whenever each value is written as esc(esc(v)); that side condition is proved for every value without a double quote (backslashes included, after the fix) and fails for values with a double quote (known finding)")
 PROPS['C13']['level_text'] = ("Proved: list rendering (one begin/end block for N >= 2, the bare command for N = 1) for all lists, and positional pairing of all eight tuple impls (expanded from the macro) against ghost command/response specs of the Command trait. "
-    "The Vec<C> impl is iterator-adaptor code outside Verus' reach: bounded stand-in listpair (by parametricity nearly exhaustive); the framing literals are decided by execution")
+    "positional pairing of the Vec<C> impl (zip loop, count check) is proved too; only its command_list half (iterator adaptors) is bounded: stand-in listpair (by parametricity nearly exhaustive); the framing literals are decided by execution")
 
 PROPS['C17'] = {'units': ['C'], 'spec_tags': ['sess'], 'bounded': ['clientsim'],
     'trusted': ['ENVIRONMENT MODEL (hypothesis of the property, introduced by `assume` at the four request sites of Client::album_art and nowhere else): the server holds, per URI, an optional embedded picture and an optional cover file (bytes + MIME type), '
